@@ -231,6 +231,9 @@ class ExprMixin:
             if self.branch(yt == 0):
                 raise PyRaise("ZeroDivisionError")
             return SNum(xt / yt, False)
+        if isinstance(op, (ast.FloorDiv, ast.Mod)) and both_int and isinstance(b, int) and not isinstance(b, bool) and b > 0:
+            # positive constant divisor: z3's div/mod coincide with Python's floor division / modulo
+            return SNum(xt / yt if isinstance(op, ast.FloorDiv) else xt % yt, True)
         if isinstance(op, (ast.FloorDiv, ast.Mod)) and both_int:
             if self.branch(yt == 0):
                 raise PyRaise("ZeroDivisionError")
@@ -269,6 +272,9 @@ class ExprMixin:
 
     def compare(self, op, a, b):
         if isinstance(op, ast.Is):
+            for x, y in ((a, b), (b, a)):
+                if hasattr(x, "sym_is_none") and y is None:
+                    return SBool(x.sym_is_none(self))
             if a is None or b is None:
                 return a is None and b is None
             if isinstance(a, (SObj, list, dict)) or isinstance(b, (SObj, list, dict)):
@@ -696,9 +702,66 @@ class ExprMixin:
                 self.assign(g.target, item, env2, cls)
                 out.append(self.eval(e.elt, env2, cls))
             return out
+        if len(e.generators) == 1 and e.generators[0].ifs:
+            g = e.generators[0]
+            it = self.eval(g.iter, env, cls)
+            if isinstance(it, SymSeq):
+                return self.lazy_filter(e.elt, g.target, g.ifs, it, env, cls)
         out = []
         self.comp_iter(e.generators, env, cls, lambda env2: out.append(self.eval(e.elt, env2, cls)))
         return out
+
+    def lazy_filter(self, elt, target, conds, seq, env, cls):
+        """[elt for x in seq if conds] over a sequence of symbolic length: the result is the subsequence of the matching
+        elements, introduced by its defining property (an order-preserving index map idx onto exactly the matching positions).
+        The conditions must be branch-free and side-effect free."""
+        eng = self
+        I_ = z3.IntSort()
+        L = z3.FreshInt("flen")
+        idx = z3.Function(f"fidx!{L}", I_, I_)
+        inv = z3.Function(f"finv!{L}", I_, I_)
+
+        def pred(jt):
+            env2 = dict(env)
+            eng.assign(target, seq.at(jt), env2, cls)
+            npc, ndec = len(eng.pc), eng.dpos
+            terms = []
+            for c in conds:
+                v = eng.pure_bool(c, env2, cls)
+                if len(eng.pc) != npc or eng.dpos != ndec:
+                    raise Unsupported("filter condition over symbolic sequence is not branch-free")
+                terms.append(v.t if isinstance(v, SBool) else z3.BoolVal(bool(v)) if isinstance(v, bool) or v is None else None)
+                if terms[-1] is None:
+                    raise Unsupported("filter condition is not boolean-valued")
+            return z3.And(terms)
+
+        i, k, j = z3.FreshInt("fi"), z3.FreshInt("fk"), z3.FreshInt("fj")
+        n = seq.length
+        self.assume(z3.And(L >= 0, L <= z3.If(n > 0, n, 0)))
+        self.assume(z3.ForAll([i], z3.Implies(z3.And(0 <= i, i < L), z3.And(0 <= idx(i), idx(i) < n, pred(idx(i))))))
+        self.assume(z3.ForAll([i, k], z3.Implies(z3.And(0 <= i, i < k, k < L), idx(i) < idx(k))))
+        self.assume(z3.ForAll([j], z3.Implies(z3.And(0 <= j, j < n, pred(j)), z3.And(0 <= inv(j), inv(j) < L, idx(inv(j)) == j))))
+        out = self.lazy_map(elt, target, SymSeq(L, lambda t: seq.at(idx(t))), env, cls)
+        out.filter_of = (seq, idx, L, pred)
+        return out
+
+    def pure_bool(self, e, env, cls):
+        """boolean expression -> SBool/bool without forking (and/or/not are combined as terms; leaves must not branch)"""
+        if isinstance(e, ast.BoolOp):
+            vs = [self.pure_bool(x, env, cls) for x in e.values]
+            if all(isinstance(v, bool) or v is None for v in vs):
+                return all(vs) if isinstance(e.op, ast.And) else any(vs)
+            ts = [v.t if isinstance(v, SBool) else z3.BoolVal(bool(v)) for v in vs]
+            return SBool(z3.And(ts) if isinstance(e.op, ast.And) else z3.Or(ts))
+        if isinstance(e, ast.UnaryOp) and isinstance(e.op, ast.Not):
+            v = self.pure_bool(e.operand, env, cls)
+            return SBool(z3.Not(v.t)) if isinstance(v, SBool) else (not v)
+        v = self.eval(e, env, cls)
+        if isinstance(v, (SBool, bool)) or v is None:
+            return v
+        if hasattr(v, "sym_truth_term"):
+            return SBool(v.sym_truth_term(self))
+        raise Unsupported("pure_bool of " + type(v).__name__)
 
     def lazy_map(self, elt, target, seq, env, cls):
         eng = self
